@@ -191,8 +191,16 @@ func absInputs(l *layout) []string {
 
 // modelFiles runs MC_Files for a family and replays every layout on the
 // real binary.
+// FilesShardFraction > 1: only 1/FilesShardFraction of the layouts is explored
+// (the universe is cut into nsh*fraction parts, nsh of them run, rotating with the seed).
+var FilesShardFraction = 1
+
 func modelFiles(r *Run, family string) modelStats {
 	nsh := 4
+	total := nsh * FilesShardFraction
+	if FilesShardFraction > 1 {
+		r.Cov["model_universe_fraction_explored"] = fmt.Sprintf("1/%d (rotating with the seed)", FilesShardFraction)
+	}
 	var st modelStats
 	var mu sync.Mutex
 	seen := map[[20]byte]bool{}
@@ -201,12 +209,13 @@ func modelFiles(r *Run, family string) modelStats {
 	sem := make(chan struct{}, Cores())
 	var wgRun sync.WaitGroup
 	var wg sync.WaitGroup
-	for sh := 0; sh < nsh; sh++ {
+	for k := 0; k < nsh; k++ {
+		sh := k + nsh*int(r.Seed%int64(FilesShardFraction))
 		wg.Add(1)
 		go func(sh int) {
 			defer wg.Done()
 			dir := filepath.Join(r.Dir, fmt.Sprintf("mc-files-%s-%d", family, sh))
-			cfg := fmt.Sprintf("SPECIFICATION Spec\nCONSTANTS\n CharOrder <- AsciiOrder\n LowerSet <- AsciiLower\n MaxFuel = 64\n Family = \"%s\"\n Shard = %d\n NShards = %d\nINVARIANT TypeOK\nCHECK_DEADLOCK FALSE\n", family, sh, nsh)
+			cfg := fmt.Sprintf("SPECIFICATION Spec\nCONSTANTS\n CharOrder <- AsciiOrder\n LowerSet <- AsciiLower\n MaxFuel = 64\n Family = \"%s\"\n Shard = %d\n NShards = %d\nINVARIANT TypeOK\nINVARIANT Inv\nCHECK_DEADLOCK FALSE\n", family, sh, total)
 			res, err := tlc.RunModelCfg(dir, "MC_Files", cfg, 2, "4g", 60*time.Minute, func(js []byte) {
 				h := sha1.Sum(js)
 				mu.Lock()
